@@ -357,6 +357,14 @@ func isDir(filesystem fs.FS, path string) bool {
 	return err == nil && fi.IsDir()
 }
 
+// relativePath returns the relative import path equivalent to path in the package of relative path base.
+func relativePath(base, path string) string {
+	if path = filepath.ToSlash(filepath.Join(base, path)); !isPathRelative(path) {
+		path = "./" + path
+	}
+	return path
+}
+
 // isPathRelative returns true if path starts with "./" or "../".
 // It is intended for use on import paths, where "/" is always the directory separator.
 func isPathRelative(s string) bool {
